@@ -81,6 +81,7 @@ func init() {
 		"time.LoadLocation":            icLoadLocation,
 		"time.Now":                     icTimeNow,
 		"time.Sleep":                   icTimeSleep,
+		"time.After":                   icTimeAfter,
 		"time.Date":                    icTimeDate,
 		"(time.Time).In":               icTimeIn,
 		"(time.Time).UTC":              icTimeIn,
@@ -801,7 +802,18 @@ func icTimeNow(fr *frame, args []value) value {
 	return timeVal{t}
 }
 
+func icTimeAfter(fr *frame, args []value) value {
+	d := args[0].(*Term)
+	if !d.IsConst() {
+		panic(pathAbort{"time.After with a symbolic duration"})
+	}
+	return fr.m.sched.addTimer(d.c, nil)
+}
+
 func (m *Machine) clockAdvance(d *Term) {
+	if d.IsConst() {
+		m.sched.advance(d.c)
+	}
 	if m.slept == nil {
 		m.slept = d
 	} else {
